@@ -239,10 +239,15 @@ class Src:
         self.pos = 0
         self.closed = False
         self.reads_after_close = 0
+        self.limit = None           # environment answer: at most this many bytes for the next read
 
     def read(self, n):
         if self.closed:
             self.reads_after_close += 1
+        if n is None or n < 0:
+            n = len(self.data)
+        if self.limit is not None:
+            n = min(n, self.limit)
         c = self.data[self.pos:self.pos + n]
         self.pos += len(c)
         return c
@@ -253,6 +258,7 @@ class Src:
     def __deepcopy__(self, memo):
         s = Src(self.data)
         s.pos, s.closed = self.pos, self.closed
+        s.limit = self.limit
         s.reads_after_close = self.reads_after_close
         return s
 
@@ -297,21 +303,49 @@ class WrapperSystem:
     """An InspectWrapper with all (allowed) inspectors, read through read()."""
     kind = 'wrapper'
 
-    def __init__(self, expected=None, allowed=None, reverse=False, positional=False):
+    def __init__(self, expected=None, allowed=None, reverse=False, positional=False, ask=None):
         self.expected, self.allowed, self.reverse = expected, allowed, reverse
         self.positional = positional
-        self.name = 'wrapper'
+        # ask: the caller always asks for `ask` bytes and it is the *source* that answers
+        # with the piece (a short read; an empty answer in mid-stream for an empty chunk),
+        # as a socket or pipe does. None: the caller asks for exactly the piece.
+        self.ask = ask
+        self.name = 'wrapper' if ask is None else 'wrapper-short'
 
     def new(self, data):
         return make_wrapper(data, self.expected, self.allowed, self.reverse, self.positional)
 
+    def _src(self, obj):
+        for v in vars(obj).values():
+            if isinstance(v, Src):
+                return v
+        raise AssertionError('the wrapper does not hold its source any more')
+
     def feed(self, obj, data, p, q):
-        got = obj.read(q - p)
+        if self.ask is None:
+            got = obj.read(q - p)
+        else:
+            src = self._src(obj)
+            src.limit = q - p
+            try:
+                got = obj.read(self.ask)
+            finally:
+                src.limit = None
         if got != data[p:q]:
             raise AssertionError('wrapper altered the bytes')
 
     def feed_empty(self, obj, data, p):
-        obj.read(0)
+        if self.ask is None:
+            obj.read(0)
+        else:
+            src = self._src(obj)
+            src.limit = 0
+            try:
+                got = obj.read(self.ask)
+            finally:
+                src.limit = None
+            if got != b'':
+                raise AssertionError('wrapper altered the bytes')
 
     def finish(self, obj):
         obj.close()
@@ -329,6 +363,14 @@ class WrapperSystem:
         return list(w._inspectors)
 
     decision = staticmethod(wrapper_decision)
+
+
+def make_system(name, **kw):
+    if name == 'wrapper':
+        return WrapperSystem(**kw)
+    if name == 'wrapper-short':
+        return WrapperSystem(ask=1 << 22, **kw)
+    return InspectorSystem(name)
 
 
 # ---------------------------------------------------------------------------
